@@ -6,14 +6,28 @@ import time
 from . import pengine as PE
 
 
+def verdict_view(R):
+    """the part of a result that both engine modes must agree on"""
+    return {
+        "panic_sites": sorted(R["panic_sites"]),
+        "loop_viol": sorted(R["loop_viol"]),
+        "leak_sites": sorted(R["leak_sites"]),
+        "finish": {k: (v["tok"], v["child"]) for k, v in sorted(R["finish_sites"].items())},
+        "stolen": sorted(k for k, v in R["consume_sites"].items() if "R_BRACE" in v["stolen"]),
+        "la_abs": R["la_abs"],
+        "tails": {k: v["la"] for k, v in sorted(R["tails"].items())},
+        "noprog_cycles": len(R["noprog_cycles"]),
+    }
+
+
 def _ser(o):
     if isinstance(o, (set, frozenset)):
         return sorted(o)
     raise TypeError(type(o))
 
 
-def results(F):
-    path = os.path.join(F.dir, "pengine.json")
+def results(F, singletons=False):
+    path = os.path.join(F.dir, "pengine_singletons.json" if singletons else "pengine.json")
     if os.path.exists(path):
         try:
             with open(path) as fh:
@@ -21,7 +35,7 @@ def results(F):
         except Exception:
             pass
     t0 = time.time()
-    E = PE.PEngine(F).run()
+    E = PE.PEngine(F, singletons=singletons).run()
     fns = sorted({c[0] for c in E.contexts})
     loops = {}
     for p in fns:
